@@ -28,6 +28,7 @@ TYPES = {
     "Ort": "m",           # definition of Punkt
     "Nummer Liste": "f",
     "Reihe": "f",         # definition of Zahlen Liste
+    "Zeichen": "n",       # alias of Buchstabe
 }
 ART = {"m": "Der", "f": "Die", "n": "Das"}
 DAT = {"m": "einem", "f": "einer", "n": "einem"}
@@ -49,6 +50,7 @@ Wir definieren eine Hausnummer als eine Zahl.
 Wir definieren einen Titel als einen Text.
 Wir definieren einen Ort als einen Punkt.
 Wir definieren eine Reihe als eine Zahlen Liste.
+Wir nennen einen Buchstaben auch ein Zeichen.
 Die generische Funktion nimm mit dem Parameter a vom Typ T, gibt nichts zurück, macht:
 	Das T kopie ist a.
 Und kann so benutzt werden:
@@ -195,7 +197,8 @@ LITERALS = {"Zahl": "7", "Kommazahl": "1,5", "Byte": "(5 als Byte)", "Wahrheitsw
             "Zahlen Liste": "eine leere Zahlen Liste", "Text Liste": "eine leere Text Liste", "Nummer": "3", "Wort": '"w"'}
 REF_NAMES = {"Zahl": "Zahlen Referenz", "Kommazahl": "Kommazahlen Referenz", "Byte": "Byte Referenz", "Wahrheitswert": "Wahrheitswert Referenz",
              "Buchstabe": "Buchstaben Referenz", "Text": "Text Referenz", "Zahlen Liste": "Zahlen Listen Referenz", "Text Liste": "Text Listen Referenz",
-             "Punkt": "Punkt Referenz", "Variable": "Variablen Referenz"}
+             "Punkt": "Punkt Referenz", "Variable": "Variablen Referenz", "Zeichen": "Zeichen Referenz", "Nummer": "Nummer Referenz", "Wort": "Wort Referenz",
+             "Hausnummer": "Hausnummer Referenz", "Titel": "Titel Referenz"}
 
 
 def akk_of(t):
@@ -257,6 +260,13 @@ def enumerate_stmt_cells(tier, rnd):
                 top = ("Wir nennen die Kombination aus\n\t%s %s f mit Standardwert %s,\neinen K%%K%%, und erstellen sie so:\n\t\"mache K%%K%%\"\n" % (
                     FIELD_DAT[TYPES[a]], a, val))
                 cells.append((("stmt", "field-default-" + src_kind, a, b), fn("Der K%K% k ist der Standardwert von einem K%K%.\n\tnimm (f von k).", top=top)))
+    # Referenz parameters bound to PARTS of values: a character of a Text, an element of a list, a field of a Kombination
+    parts = [("text-char", "(v_Text an der Stelle 1)"), ("wort-char", "(v_Wort an der Stelle 1)"), ("field-x", "(x von v_Punkt)"), ("field-name", "(name von v_Punkt)")] + \
+            [("elem:" + l, "(v_%s an der Stelle 1)" % ident(l)) for l in lists]
+    for a in REF_NAMES:
+        for pn, pexpr in parts:
+            cells.append((("stmt", "refarg-part", a, pn), fn("q%%K%% %s." % pexpr, top="Die Funktion q%%K%% mit dem Parameter a vom Typ %s, gibt nichts zurück, macht:\n\tnimm 1.\n"
+                                                              "Und kann so benutzt werden:\n\t\"q%%K%% <a>\"\n" % REF_NAMES[a])))
     for b in tl:
         cells.append((("stmt", "assign-field", "Punkt.x", b), fn("Speichere v_%s in x von v_Punkt." % ident(b))))
         cells.append((("stmt", "assign-field", "Punkt.name", b), fn("Speichere v_%s in name von v_Punkt." % ident(b))))
